@@ -117,3 +117,86 @@ func TestVerifReplayC19(t *testing.T) {
 		fmt.Println("REPLAY: not-reproduced (real code satisfies the property on this input)")
 	}
 }
+
+// c19Shared is a destination shared by two tasks: after every Write call that comes from the task
+// under test, the other task gets its turn and writes a whole line through its own decorator -
+// the interleaving a concurrent task can produce, made deterministic.
+type c19Shared struct {
+	out   []byte
+	other func()
+	busy  bool
+}
+
+func (s *c19Shared) Write(p []byte) (int, error) {
+	s.out = append(s.out, p...)
+	if !s.busy && s.other != nil {
+		s.busy = true
+		s.other()
+		s.busy = false
+	}
+	return len(p), nil
+}
+
+// Replay of VerifC19Long: the long line of the scenario through the real prefixed decorator while
+// another task writes to the same destination between any two Write calls of the first.
+func TestVerifReplayC19Long(t *testing.T) {
+	data, err := os.ReadFile(os.Getenv("VERIF_SCENARIO"))
+	if err != nil {
+		t.Skip("no scenario")
+	}
+	var sc c19Scenario
+	json.Unmarshal(data, &sc)
+	n := int(sc.Args[0])
+	p := bytes.Repeat([]byte{'x'}, n)
+	for k, pos := range []int{0, n / 2, n - 1} {
+		if v, ok := sc.Inputs[fmt.Sprintf("long.%d", k)].(float64); ok {
+			p[pos] = byte(v)
+		} else {
+			p[pos] = 'y'
+		}
+	}
+	shared := &c19Shared{}
+	d := newPrefixedOutputWriter(&task.Task{Name: "tk"}, shared)
+	o := newPrefixedOutputWriter(&task.Task{Name: "other"}, shared)
+	shared.other = func() { o.Write([]byte("oooo\n")) }
+	want := ""
+	if v, _ := sc.Inputs["short-chunk-first"].(bool); v {
+		d.Write([]byte("hd"))
+		want = "hd"
+	}
+	want += string(p)
+	if v, _ := sc.Inputs["terminated"].(bool); v {
+		p = append(p, '\n')
+	}
+	var bad []string
+	if wn, err := d.Write(p); err != nil || wn != len(p) {
+		bad = append(bad, "Write did not accept all bytes")
+	}
+	d.WriteFooter()
+	got := ""
+	for _, line := range strings.Split(strings.TrimSuffix(string(shared.out), "\r\n"), "\r\n") {
+		s := ansiRegexp.ReplaceAllString(line, "")
+		switch {
+		case strings.HasPrefix(s, "tk: "):
+			if strings.Contains(s, "other: ") || strings.Contains(s, "oooo") {
+				bad = append(bad, fmt.Sprintf("a line attributed to tk carries the other task's bytes: %.60q...", s))
+			}
+			got += s[4:]
+		case strings.HasPrefix(s, "other: "):
+			if s != "other: oooo" {
+				bad = append(bad, fmt.Sprintf("a line attributed to the other task carries foreign bytes: %.60q...", s))
+			}
+		default:
+			bad = append(bad, fmt.Sprintf("a line without a task name: %.60q...", s))
+		}
+	}
+	if got != want {
+		bad = append(bad, fmt.Sprintf("tk's lines carry %d bytes, its output had %d (or the bytes differ)", len(got), len(want)))
+	}
+	fmt.Printf("REPLAY: line of %d bytes, %d bytes at the destination\n", n, len(shared.out))
+	if len(bad) > 0 {
+		fmt.Println("REPLAY: reproduced:", strings.Join(bad, "; "))
+	} else {
+		fmt.Println("REPLAY: not-reproduced (real code satisfies the property on this input)")
+	}
+}
